@@ -231,7 +231,18 @@ func (w *world) progressOracle() string {
 			}
 			want, how = p.r.flushed, "came out of the batch call of"
 		case p.conn && p.connAsync:
-			continue
+			// the connection's resolver returned a promise of pagination.go's own chain goroutine: its
+			// delivery is visible only through api.go's trace points
+			if !hookMode || p.finalPid < 0 {
+				continue
+			}
+			w.mu.Lock()
+			r, ok := w.pidRound[p.finalPid]
+			w.mu.Unlock()
+			if !ok {
+				continue
+			}
+			want, how = r, "came out of the connection's promise, which the idle handler fulfilled at"
 		}
 		if x.round != want {
 			return fmt.Sprintf("the resolver of %s was first called after idle point %d although its object (%s) %s idle point %d: the idle handler was invoked while execution could still proceed, so the invocations pending at idle point %d were not all that belong to the wave", x.key, x.round, p.key, how, want, want+1)
